@@ -288,6 +288,7 @@ func (x *router) handleRestartRoutee(ctx *ReceiveContext) {
 		x.logger.Debugf("routee=%s restarted", sender.ID())
 	}
 	x.routeesMap[sender.ID()] = sender
+	x.rebuildHashRing()
 }
 
 func (x *router) handleResumeRoutee(ctx *ReceiveContext) {
@@ -296,6 +297,11 @@ func (x *router) handleResumeRoutee(ctx *ReceiveContext) {
 		x.logger.Debugf("resuming routee (%s)...", sender.ID())
 	}
 	ctx.Reinstate(sender)
+	// a Broadcast handled while the routee was suspended has pruned it from the
+	// pool (availableRoutees drops every routee that is not running): put it back
+	// now that it is running again, as handleRestartRoutee does
+	x.routeesMap[sender.ID()] = sender
+	x.rebuildHashRing()
 }
 
 func (x *router) handleStopRoutee(ctx *ReceiveContext) {
